@@ -130,6 +130,10 @@ class Sim:
 NICE = [c * 2.0 ** k for k in range(-14, 9) for c in (1.0, 1.5, 1.25, 1.75)]
 SIGMAS = [0.25, 0.5, 1.0, 2.0, 4.0, 8.0, 3.0, 1.5, 0.75, 5.0, 6.0, 10.0, 1.25, 0.625, 7.0]
 DELTAS = [1.0, 1.0, 1.0, 0.5, 0.5, 0.25, 0.75, 0.125, 2.0]
+DELTA_TYPES = [None, None, None, "int", "np"]   # a 0-d array is outside Delta = Union[float, MeanField] (MeanField.__pow__ tests numbers.Real)
+EXC_KINDS = ["ValueError", "ZeroDivisionError", "FloatingPointError", "OverflowError", "RuntimeError",
+             "NotImplementedError", "RecursionError", "LinAlgError", "UnicodeError"]
+NAMES = ["1", "0", "a.b", "x_0", "f 1", "Factor.0_1", "", "analysis.1.zip"]
 
 
 def rmean(rng):
@@ -201,7 +205,7 @@ def gen_raw(rng, thorough, plate=False):
         ren = {v: i for i, v in enumerate(used)}
         factors = [[ren[v] for v in f] for f in factors]
         basev = sorted({v for f in factors for v in f})
-        pl_n = rng.choice([2, 3])
+        pl_n = rng.choice([2, 3, 2, 3, 1])     # 1: a one-element array message instead of a scalar one
         plated = {v for v in basev if rng.random() < 0.6} or {basev[0]}
         elems = {v: ([v * PLATE_W + k for k in range(pl_n)] if v in plated else [v * PLATE_W]) for v in basev}
         meta = {"plate": {"n": pl_n, "vars": sorted(plated)}, "base_factors": factors}
@@ -275,6 +279,9 @@ def gen_raw(rng, thorough, plate=False):
             if d == 1.0 and rng.random() < 0.3:
                 step["via"] = "project_default"
             step["delta"] = {"t": "scalar", "d": hx(d)}
+            ty = rng.choice(DELTA_TYPES)
+            if ty and not plate:
+                step["delta"]["ty"] = ty      # int / numpy scalar / 0-d array instead of a Python float
             step["other_delta"] = hx(rng.choice([x for x in DELTAS if x != d]))
             delta = Fr(d)
         elif r < 0.7 and not key_edges and all(sim.st):
@@ -322,29 +329,87 @@ def gen_par(rng, thorough):
     if rng.random() < 0.3 and nf > 1:
         order = order[: rng.randint(1, nf)]
     max_steps = rng.randint(1, 3)
-    if rng.random() < 0.75:
-        d = rng.choice(DELTAS)
-        dj = {"t": "scalar", "d": hx(d)}
-    else:
-        d0 = rng.choice([1.0, 0.5, 0.25])
-        dj = {"t": "dynamic", "d0": hx(d0)}
+
+    def rdj():
+        if rng.random() < 0.75:
+            out_ = {"t": "scalar", "d": hx(rng.choice(DELTAS))}
+            ty = rng.choice(DELTA_TYPES)
+            if ty:
+                out_["ty"] = ty
+            return out_
+        return {"t": "dynamic", "d0": hx(rng.choice([1.0, 0.5, 0.25]))}
+    dj = rdj()
+    # ONE optimiser used twice (run(a), then run(b) on what came back, same history), its updater possibly replaced
+    # in between: as one run of a + b sweeps with the updater in force at each sweep
+    split, dj2 = None, None
+    if rng.random() < 0.45:
+        split = rng.randint(0, max_steps)
+        if rng.random() < 0.6:
+            dj2 = rdj()
     scripts = [[] for _ in range(nf)]
-    for _ in range(max_steps):
+    for sweep_ in range(max_steps):
         base = sim.copy()
+        djk = dj2 if (dj2 and split is not None and sweep_ >= split) else dj
         for i in order:
             src = base if parallel else sim
             cav, last = src.cavity(i), dict(src.st[i])
-            delta = Fr(unhex(dj["d"])) if dj["t"] == "scalar" else sim.dynamic(unhex(dj["d0"]))
+            delta = Fr(unhex(djk["d"])) if djk["t"] == "scalar" else sim.dynamic(unhex(djk["d0"]))
             keys = list(sim.st[i].keys())
             new = pick_new(rng, sim, i, delta, cav, last, keys, {v: rng.random() < 0.9 for v in keys})
             if new is None:
                 return None
             scripts[i].append({"t": "fit", "success": True, "token": 100 * i + len(scripts[i]),
                                "new": [[v, hx(mu), hx(sg)] for v, (mu, sg) in new.items()]})
+            if rng.random() < 0.1:
+                scripts[i][-1]["warn"] = True
             sim.project(i, delta, cav, last, {v: natf(mu, sg) for v, (mu, sg) in new.items()})
-    stop = [rng.choice(order), rng.randint(1, max_steps)] if rng.random() < 0.5 else None
-    return {"kind": "par", "factors": factors, "init": init, "parallel": parallel, "order": order,
-            "max_steps": max_steps, "delta": dj, "scripts": scripts, "stop": stop}
+    stop = [rng.choice(order), rng.randint(1, max_steps)] if (rng.random() < 0.5 and split is None) else None
+    c = {"kind": "par", "factors": factors, "init": init, "parallel": parallel, "order": order,
+         "max_steps": max_steps, "delta": dj, "scripts": scripts, "stop": stop}
+    if split is not None:
+        c["split"] = split
+        if dj2:
+            c["delta2"] = dj2
+    # the second way to say which optimiser fits which factor (factor_optimisers dict, with or without a default)
+    c["route"] = rng.choice(["default", "default", "by_factor", "mixed"])
+    if c["route"] == "mixed":
+        c["own"] = sorted(rng.sample(range(nf), rng.randint(0, nf)))
+    reverse_tokens(rng, scripts)
+    return c
+
+
+def reverse_tokens(rng, scripts):
+    """half of the cases: a factor's results are numbered downwards, so that its MOST RECENT result is the falsy 0"""
+    if rng.random() < 0.5:
+        for i, sc in enumerate(scripts):
+            fits = [oc for oc in sc if oc["t"] == "fit"]
+            for k, oc in enumerate(fits):
+                oc["token"] = 100 * i + (len(fits) - 1 - k)
+
+
+def par_delta(c, k):
+    """the updater in force at log entry k of a par case"""
+    if c.get("delta2") and c.get("split") is not None and k // len(c["order"]) >= c["split"]:
+        return c["delta2"]
+    return c["delta"]
+
+
+def who_expected(c):
+    """per graph factor: which optimiser object must be asked (its own, else the default)"""
+    if c["kind"] == "par":
+        nf = len(c["factors"])
+        if c.get("route") == "by_factor":
+            return ["own%d" % i for i in range(nf)]
+        if c.get("route") == "mixed":
+            return ["own%d" % i if i in c["own"] else "default" for i in range(nf)]
+        return ["default"] * nf
+    out = []
+    for mi, m in enumerate(c["mfactors"]):
+        n = 1 if m["t"] == "analysis" else len(m["drawn"])
+        out += ["own%d" % mi if m.get("own") else "default"] * n
+    if c["entry"] == "single":
+        out = out[:1]
+    return out
 
 
 
@@ -355,7 +420,7 @@ def gen_subset(rng, thorough):
     ren = {v: i for i, v in enumerate(used)}
     base_factors = [[ren[v] for v in f] for f in base_factors]
     basev = sorted({v for f in base_factors for v in f})
-    n = rng.choice([2, 3, 4])
+    n = rng.choice([2, 3, 4, 2, 3, 4, 1])
     plated = {v for v in basev if rng.random() < 0.7}
     crash_b = rng.random() < 0.05
     crash_c = rng.random() < 0.05
@@ -483,6 +548,8 @@ def gen_decl(rng, thorough):
             if dup_ok and rng.random() < 0.6:
                 occ.insert(rng.randrange(len(occ) + 1), rng.choice(occ))
             mfactors.append({"t": "analysis", "occ": occ})
+            if rng.random() < 0.3:
+                mfactors[-1]["own"] = True     # the factor carries its own optimiser
         else:
             pool = list(range(nv))
             rng.shuffle(pool)
@@ -498,7 +565,22 @@ def gen_decl(rng, thorough):
                 dist = [dist_vars[0], hx(rng.choice([0.5, 1.0, 2.0]))]
             else:
                 dist = [hx(rmean(rng)), dist_vars[0]]
+            if rng.random() < 0.08 and ndist == 2:
+                dist = [dist[0], dist[0]]        # one prior under two paths of the distribution (mean and sigma)
+            if rng.random() < 0.08:
+                drawn.insert(rng.randrange(len(drawn) + 1), rng.choice(drawn))   # the same variable drawn twice
             mfactors.append({"t": "hier", "dist": dist, "drawn": drawn})
+    # an equal-but-distinct factor: the same model object and analysis object wrapped in a second AnalysisFactor
+    an_ = [k for k, m in enumerate(mfactors) if m["t"] == "analysis"]
+    if an_ and rng.random() < 0.12:
+        k_ = rng.choice(an_)
+        mfactors.append({"t": "analysis", "occ": list(mfactors[k_]["occ"]), "twin_of": k_})
+    # explicit names with dots / digits / spaces (names key FactorGraphModel.prior_model and EPResult.model)
+    if rng.random() < 0.3:
+        pool_ = rng.sample(NAMES, len(NAMES))
+        for m in mfactors:
+            if m["t"] == "analysis" and pool_ and rng.random() < 0.7:
+                m["name"] = pool_.pop()
     if not mfactors:
         mfactors.append({"t": "analysis", "occ": [0]})
     entry = "single" if (mfactors[0]["t"] == "analysis" and rng.random() < 0.12) else "fgm"
@@ -506,6 +588,19 @@ def gen_decl(rng, thorough):
          "include": rng.random() < 0.8, "entry": entry}
     if entry == "single":
         c["mfactors"] = mfactors[:1]
+        c["mfactors"][0].pop("twin_of", None)
+    # ids out of declaration order: the id of a prior need not grow with its index, nor creation follow the index
+    if rng.random() < 0.5:
+        c["ids"] = rng.sample(range(3 * nv + 2), nv)
+        c["create"] = rng.sample(range(nv), nv)
+    # ONE FactorGraphModel used twice: read on a smaller composition first, then grown to the full one
+    if entry == "fgm" and rng.random() < 0.3:
+        gr = {"n": rng.randint(1, len(c["mfactors"])), "hier_late": {}}
+        for mi, m in enumerate(c["mfactors"]):
+            if m["t"] == "hier" and rng.random() < 0.6:
+                gr["hier_late"][str(mi)] = rng.randint(0, len(m["drawn"]) - 1)
+        if gr["n"] < len(c["mfactors"]) or gr["hier_late"]:
+            c["grow"] = gr
     fs, gf, include = decl_graph(c)
     used = sorted({v for f in fs for v in f})
     # the run: scripted optimisers for every factor of the graph
@@ -548,7 +643,7 @@ def gen_decl(rng, thorough):
             delta = Fr(unhex(dj["d"])) if dj["t"] == "scalar" else sim.dynamic(unhex(dj["d0"]))
             keys = list(sim.st[i].keys())
             if rng.random() < 0.12 and not repeat:
-                scripts[i].append({"t": "raise"})
+                scripts[i].append({"t": "raise", "exc": rng.choice(EXC_KINDS)})
                 # new = model_dist: the projection gives back the factor's own message (delta >= 1)
                 new = {v: add(last[v], cav[v]) if v in cav else last[v] for v in keys}
                 sim.project(i, delta, cav, last, new)
@@ -579,10 +674,15 @@ def gen_decl(rng, thorough):
             scripts[i].append({"t": "fit", "success": (step_plan[1] == "+") if step_plan else rng.random() < 0.8,
                                "token": 100 * i + len(scripts[i]),
                                "new": [[v, hx(mu), hx(sg)] for v, (mu, sg) in newd.items()]})
+            if rng.random() < 0.1:
+                scripts[i][-1]["warn"] = True
             sim.project(i, delta, cav, last, {v: natf(mu, sg) for v, (mu, sg) in newd.items()})
     if max_steps >= 1 and rng.random() < 0.25 and not kl_mode:
         stop = [rng.choice(order), rng.randint(1, max_steps)]
     c["run"] = {"mode": mode, "order": order, "delta": dj, "max_steps": max_steps, "stop": stop, "scripts": scripts}
+    if mode == "epopt" and stop is None and not kl_mode and rng.random() < 0.5:
+        c["run"]["split"] = rng.randint(0, max_steps)     # the optimiser (and an EPResult on its history) used twice
+    reverse_tokens(rng, scripts)
     if kl_mode:
         c["run"]["history"] = "default"
     return c
@@ -864,6 +964,19 @@ def oracle_raw(c, r):
             fails.append((where + ": reported factor message differs from the state", []))
         if dmap(o["global_alias"]) != glob:
             fails.append((where + ": model_dist (alias of mean_field) differs from mean_field", []))
+        if "global_vm" in o:
+            gv = dmap(o["global_vm"])
+            mgv = magnitude(glob, gv)
+            if set(gv) != set(glob) or any(not near(gv[v], glob[v], mgv[v]) for v in glob):
+                fails.append((where + ": the product of variable_messages per variable is not the global approximation", []))
+            # (a plated variable is one Variable: its count is reported once, on its first plate element)
+            cnt_ = {}
+            for m_ in after:
+                for v in m_:
+                    if not c.get("plate") or v % PLATE_W == 0:
+                        cnt_[v] = cnt_.get(v, 0) + 1
+            if sorted([v, n] for v, n in cnt_.items()) != [x_ for x_ in o["vm_count"] if x_[1] != 0]:   # (a variable no factor holds any more is listed with 0)
+                fails.append((where + ": variable_message_count %s is not the number of factors holding each variable" % o["vm_count"], []))
         new = {v: fnat(unhex(mu), unhex(sg)) for v, mu, sg in s["new"]}
         if s["via"].startswith("inplace"):
             # write-back on the same object: the factor's messages are exactly what was written (the other
@@ -992,7 +1105,9 @@ def oracle_run(c, r, run, nf, state0, parallel, where0):
             fails.append((where + ": recorded result %r is not the optimiser's %r" % (e["token"], tok), []))
         if e["success"] and not succ_in:
             fails.append((where + ": a failed optimisation was recorded as a success", []))
-        step = {"delta": run["delta"]}
+        step = {"delta": run["delta_at"](k) if run.get("delta_at") else run["delta"]}
+        if seen.get("who") is not None and run.get("who") and seen["who"] != run["who"][i]:
+            fails.append((where + ": the factor was fitted by optimiser %r, its optimiser is %r" % (seen["who"], run["who"][i]), []))
         fresh = (not parallel) or src == state
         gb = {v: fsum(state, v) for v in {v for mm in state for v in mm}}
         m, bad = check_update(step, i, cav, own, new, dmap(e["msg"]), gb, glob, e["success"], succ_in, fresh,
@@ -1003,6 +1118,22 @@ def oracle_run(c, r, run, nf, state0, parallel, where0):
     fin = [dmap(m) for m in r["final"]]
     if fin != state:
         fails.append((where0 + ": returned approximation is not the last recorded one", []))
+    if run.get("split") is not None and r.get("n_mid") != run["split"] * len(order):
+        fails.append(("%s: the first of two calls of run() recorded %r visits, expected %d sweeps over %d factors"
+                      % (where0, r.get("n_mid"), run["split"], len(order)), []))
+    # read - append - read on one FactorHistory: after EVERY entry the accessors report the most recent state so far
+    for k, (e, got) in enumerate(zip(log, r.get("mid") or [])):
+        mine = [x for x in log[:k + 1] if x["f"] == e["f"]]
+        succ = [j for j, x in enumerate(mine) if x["success"]]
+        upd = [j for j, x in enumerate(mine) if x["updated"]]
+        exp_m = {"latest_successful": succ[-1] if succ else None, "previous_successful": succ[-2] if len(succ) > 1 else None,
+                 "latest_update": upd[-1] if upd else None, "previous_update": upd[-2] if len(upd) > 1 else None,
+                 "latest_result": [mine[succ[-1]]["token"]] if succ else None}
+        if got != exp_m:
+            bad_ = sorted(n_ for n_ in exp_m if got.get(n_) != exp_m[n_])
+            fails.append(("%s: read after visit %d (factor %d): %s report %r, the most recent so far are %r"
+                          % (where0, k, e["f"], bad_, [got.get(n_) for n_ in bad_], [exp_m[n_] for n_ in bad_]), []))
+            break
     # history accessors: most recent entry per factor
     for i, a in enumerate(r["access"]):
         sts = a["statuses"]
@@ -1145,7 +1276,8 @@ def oracle_par(c, r):
     reset_hw()
     state0 = [dmap(m) for m in r["state0"]]
     nf = len(state0)
-    run = {"order": c["order"], "max_steps": c["max_steps"], "stop": c.get("stop"), "delta": c["delta"], "scripts": c["scripts"]}
+    run = {"order": c["order"], "max_steps": c["max_steps"], "stop": c.get("stop"), "delta": c["delta"], "scripts": c["scripts"],
+           "delta_at": lambda k: par_delta(c, k), "who": who_expected(c), "split": c.get("split")}
     return oracle_run(c, r, run, nf, state0, c["parallel"], "run")
 
 
@@ -1222,7 +1354,7 @@ def oracle_decl(c, r):
                               [("init-power", v)] if near(cav[v], defect, mag[v]) else [("wrong-cavity",)]))
     run = c.get("run")
     if run:
-        run = dict(run, order=run_order(c, r))
+        run = dict(run, order=run_order(c, r), who=who_expected(c) + ["default"] * len(gf))
         if sorted(run["order"]) != list(range(len(gf))) and c["run"]["mode"] == "optimise":
             fails.append(("default visiting order %s is not a permutation of the graph's factors" % run["order"], []))
             return fails
@@ -1248,6 +1380,9 @@ def oracle_decl(c, r):
                               [("latest_result", i) for i in grp] if got == first_exp else [("wrong-result",)]))
         if len(r["groups"]) != len(exp_groups):
             fails.append(("EPResult accessor count", []))
+        if "groups_early_object" in r and r["groups_early_object"] != r["groups"]:
+            fails.append(("an EPResult made before the fit and read after every recorded entry reports %r at the end, a fresh EPResult on the same "
+                          "history reports %r" % (r["groups_early_object"], r["groups"]), []))
         if r.get("posterior_missing"):
             fails.append(("EPResult.model has no entry for the priors %s of the graph" % r["posterior_missing"],
                           [("posterior-missing", v) for v in r["posterior_missing"]]))
@@ -1354,7 +1489,7 @@ def coq_par(c, r):
         seen = r["seen"][k]
         o = {"cavity": seen["cavity"], "model": seen["model"], "msg": e["msg"], "global": e["global"],
              "success": e["success"], "updated": e["updated"]}
-        steps.append(c_rstep(i, c["delta"], c["parallel"], c["parallel"] and k % n == 0, oc["new"], o))
+        steps.append(c_rstep(i, par_delta(c, k), c["parallel"], c["parallel"] and k % n == 0, oc["new"], o))
     return "CRaw %s %s %s %s %s" % (
         clist([c_in_mf(m) for m in c["init"]]), clist([c_obs_mf(m) for m in r["state0"]]), c_obs_mf(r["global0"]),
         clist(steps), clist([c_obs_mf(m) for m in r["final"]]))
@@ -1465,7 +1600,17 @@ def run(ctx):
                 "scripted factor optimisers; (decl) a FactorGraphModel of analysis / hierarchical / prior factors with shared priors, "
                 "its initial state, then EPOptimiser.run or .optimise with scripted optimisers (failures, exceptions, early stop) and "
                 "the history / EPResult accessors. A case is non-trivial when at least two factors share a variable (or a "
-                "hierarchical factor is present) and at least two updates (decl: one sweep) happen; distinct = distinct abstract input")
+                "hierarchical factor is present) and at least two updates (decl: one sweep) happen; distinct = distinct abstract input. "
+                "SWEEP shapes present in every quick run (distributions sweep_*): objects used twice -- one FactorHistory read after "
+                "every appended entry, one EPResult made before the fit and read after every entry, one EPOptimiser called twice "
+                "(run(a), run(b), updater replaced in between), one FactorGraphModel read on a smaller composition and then grown "
+                "(add / add_drawn_variable), one updater object per parameter set shared by all graphs of a driver process, every "
+                "container an EPMeanField hands out cleared by the caller; unusual values -- damping given as int / numpy scalar, "
+                "one-element plates, results numbered downwards (most recent result 0), split 0 / all, names with dots, digits, "
+                "spaces; second routes -- factor_optimisers dict (with / without default) and a factor's own optimiser vs the "
+                "default one, variable_messages product vs mean_field; ids out of declaration and creation order, twin factors "
+                "(same model and analysis objects), a prior under both paths of a hierarchical distribution, a variable drawn "
+                "twice; nine exception classes and warnings raised inside the user's optimiser")
     ctx.trusted = [
         "Coq 8.16.1 kernel incl. vm_compute",
         "correspondence harness c18.py / impl/c18_impl.py; Python float.hex and fractions.Fraction (binary64 -> exact rational)",
@@ -1514,6 +1659,20 @@ def run(ctx):
                 for oc in sc:
                     ctx.hist("outcome", oc["t"] if oc["t"] == "raise" else ("fit-ok" if oc["success"] else "fit-failed"))
             ctx.hist("delta", c["run"]["delta"]["t"])
+            ctx.hist("sweep_twice_used", "+".join(sorted(
+                (["grown-graph"] if c.get("grow") else []) + (["run-split=%s" % ("0" if c["run"]["split"] == 0 else "all" if c["run"]["split"] == c["run"]["max_steps"] else "mid")] if c["run"].get("split") is not None else [])
+                + (["own-optimiser"] if any(m.get("own") for m in c["mfactors"]) else []))) or "-")
+            ctx.hist("sweep_ids_sharing", "+".join(sorted(
+                (["ids-out-of-order"] if c.get("ids") else []) + (["twin-factor"] if any("twin_of" in m for m in c["mfactors"]) else [])
+                + (["named"] if any(m.get("name") is not None for m in c["mfactors"]) else [])
+                + (["dist-prior-twice"] if any(m["t"] == "hier" and len(m["dist"]) == 2 and m["dist"][0] == m["dist"][1] for m in c["mfactors"]) else [])
+                + (["drawn-twice"] if any(m["t"] == "hier" and len(set(m["drawn"])) < len(m["drawn"]) for m in c["mfactors"]) else []))) or "-")
+            for sc in c["run"]["scripts"]:
+                for oc in sc:
+                    if oc["t"] == "raise":
+                        ctx.hist("sweep_exception", oc.get("exc", "ValueError"))
+                    elif oc.get("warn"):
+                        ctx.hist("sweep_exception", "warning-in-optimiser")
         else:
             ctx.hist("factors", len(c["factors"]))
             ctx.hist("updates", len(c["steps"]) if c["kind"] in ("raw", "subset") else c["max_steps"] * len(c["order"]))
@@ -1524,6 +1683,13 @@ def run(ctx):
                 ctx.hist("delta", s_["delta"]["t"] + ("=" + str(unhex(s_["delta"]["d"])) if s_["delta"]["t"] == "scalar" else ""))
             if c["kind"] == "par":
                 ctx.hist("delta", c["delta"]["t"])
+                ctx.hist("sweep_par", "route=%s%s%s" % (c.get("route"), " split" if c.get("split") is not None else "",
+                                                        " updater-replaced" if c.get("delta2") else ""))
+            for s_ in (c["steps"] if c["kind"] == "raw" else []):
+                if s_["delta"].get("ty"):
+                    ctx.hist("sweep_delta_type", s_["delta"]["ty"])
+            if c.get("plate"):
+                ctx.hist("sweep_plate_size", c["plate"]["n"])
         if "ok" in r and c["kind"] == "decl" and c["run"].get("history") == "default":
             ctx.hist("kl_termination", "converged-early" if len(r["ok"]["log"]) < c["run"]["max_steps"] * len(run_order(c, r["ok"]))
                      else "ran-to-max-steps")
@@ -1595,7 +1761,8 @@ MANIFEST = {
             "EPOptimiser.run / EPHistory, parametric in the message group, for every factor graph, state and update sequence "
             "(model = message * cavity = global; update changes one factor only; full valid update makes the global approximation "
             "equal the fitted distribution; damped update interpolates; initial cavity = prior; accessors return the most recent "
-            "entry), with _refuted witnesses where the code as it stands violates the statement, plus a vm_compute correspondence "
+            "entry; a memoised history accessor answers like a fresh object under every sound cache policy -- cached_property "
+            "refuted; two calls of run() equal one run), with _refuted witnesses where the code as it stands violates the statement, plus a vm_compute correspondence "
             "of the model with the running code and a direct property oracle on every generated case",
     "note": "Trusted: Coq kernel + vm_compute, the correspondence harness. Natural parameters are compared with a labelled "
             "tolerance (2^-36 relative to the magnitudes involved) because the code stores (mean, sigma) in binary64 while the model "
